@@ -165,7 +165,7 @@ int evutil_read_file_(const char *filename, char **content_out, size_t *len_out,
 #ifndef C39_N
 #define C39_N 12
 #endif
-#define VPD_SMALL_COPY 28     /* sockaddr_in6 is the largest block copied with a computed length */
+#define VPD_SMALL_COPY (C39_N + 2)    /* solver-chosen lengths are <= line length + 1; fixed-size blocks (sockaddr) take the other loop */
 #include "dns_typed_alloc_pre.h"
 #include "evdns.c"
 #include "dns_typed_alloc_post.h"
@@ -577,8 +577,11 @@ void harness_hosts(void)
 	r = evdns_base_parse_hosts_line(base, line);
 	EVDNS_UNLOCK(base);
 
-	nnames = 0;
-	TAILQ_FOREACH(he, &base->hostsdb, next) nnames++;
+	/* the entries, in allocation order (entry k is the k-th block the parser allocated: following the TAILQ links
+	 * means reading pointers back out of untyped blocks, which costs symex its precision -- the head link is checked) */
+	nnames = vpd_ntrack;
+	VP_ASSERT((TAILQ_FIRST(&base->hostsdb) == NULL) == (nnames == 0), "C39: hosts line: list head does not match the entries allocated");
+	if (nnames > 0) VP_ASSERT((void *)TAILQ_FIRST(&base->hostsdb) == vpd_track_p[0], "C39: hosts line: first entry is not the head of the hosts list");
 	if (t.n == 0) {                       /* empty / comment only */
 		want_r = 0; want_n = 0;
 		VP_ASSERT(c39_psp_calls == 0, "C39: hosts line: address parser called for an empty or comment line");
@@ -602,18 +605,23 @@ void harness_hosts(void)
 	}
 	if (want_r != -2) VP_ASSERT(r == want_r, "C39: hosts line: result differs from the reference (0 ok/ignored, -1 bad address)");
 	if (want_n != -2) VP_ASSERT(nnames == want_n, "C39: hosts line: number of recorded names differs from the reference");
-	i = 1;
-	TAILQ_FOREACH(he, &base->hostsdb, next) {
-		if (i < t.n && want_n != -2) {
-			VP_ASSERT(c39_text_equal(he->hostname, copy, t.start[i], t.len[i]), "C39: hosts line: recorded name differs from the reference");
-			VP_ASSERT(he->addrlen == c39_psp_len[0] && c39_sa_equal(&he->addr.sa, (struct sockaddr *)&c39_psp_out[0], 1), "C39: hosts line: recorded address differs from the parsed address");
-		}
-		i++;
+	for (i = 1; i < DCR_MAXTOK; i++) if (i < t.n && i - 1 < nnames && want_n != -2) {
+		he = vpd_track_p[i - 1];
+		VP_ASSERT(vpd_track_sz[i - 1] == sizeof(struct hosts_entry) + (size_t)t.len[i], "C39: hosts line: entry not sized for its name");
+		VP_ASSERT(c39_text_equal(he->hostname, copy, t.start[i], t.len[i]), "C39: hosts line: recorded name differs from the reference");
+		VP_ASSERT(he->addrlen == c39_psp_len[0] && c39_sa_equal(&he->addr.sa, &c39_psp_out[0].sa, 1), "C39: hosts line: recorded address differs from the parsed address");
 	}
+#if !defined(C39_AF) || C39_AF != 0
+	if (want_n >= 1) C39_WITNESS("C39 hosts: address with a name recorded");
+#if !defined(C39_AF) || C39_AF == 1
 	if (want_n >= 2) C39_WITNESS("C39 hosts: address with two names");
 	if (want_n >= 1 && cut >= 0) C39_WITNESS("C39 hosts: names before a comment");
+#endif
+#endif
 	if (want_r == -1) C39_WITNESS("C39 hosts: bad address, line skipped");
 	if (t.n == 0 && len > 0) C39_WITNESS("C39 hosts: comment or blank line");
+	for (i = 0; i < VPD_NTRACK; i++) if (i < vpd_ntrack) mm_free(vpd_track_p[i]);
+	TAILQ_INIT(&base->hostsdb);
 	c39_free_base(base);
 	C39_FREE(line, C39_N, len);
 }
